@@ -69,6 +69,12 @@ def run_case(case, ctx):
     check_value(ctx, "value-container", vl, ref, 1.0, "nested lists", S, T)
     vi, _ = call_warn(ctx, persim.wasserstein, iarr(S), iarr(T))
     check_value(ctx, "value-container", vi, ref, 1.0, "int arrays", S, T)
+    # mixed representations: integer array against a fractional float array (and the other way round)
+    Th = aff(T, 0.5, 0.25)
+    rm, _ = om.wasserstein_ref(S, Th)
+    for what, a1, a2, flip in (("int array vs fractional float array", iarr(S), farr(Th), False), ("fractional float array vs int array", farr(Th), iarr(S), True)):
+        vm, _ = call_warn(ctx, persim.wasserstein, a1, a2)
+        check_value(ctx, "value-mixed-dtype", vm, rm, 1e3, what, Th if flip else S, S if flip else Th)
     if not S or not T:
         ve, _ = call_warn(ctx, persim.wasserstein, np.array(S, dtype=float), np.array(T, dtype=float))
         check_value(ctx, "value-container", ve, ref, 1.0, "np.array([]) for the empty diagram", S, T)
